@@ -1,4 +1,10 @@
+//! vf-exec: checks that only need `datafusion-execution` (C17 memory pools, C40a file caches).
+mod c17;
+mod c40a;
+
 fn main() {
-    eprintln!("no sub-commands yet");
-    std::process::exit(2);
+    vf_kit::dispatch! {
+        "c17" => c17::C17,
+        "c40a" => c40a::C40a,
+    }
 }
